@@ -206,7 +206,7 @@ theorem epInv_step {announce : Bytes} {n0 e0 : Nat} {s s' : Sys} {l : Label} (h 
       | store hpc => right; exact ⟨i, _, self', Or.inl rfl, by rw [hu']; exact Nat.le_refl _⟩
       | read hpc => rw [hu']; exact hcov _ inv.upd
       | lockRej hpc hf hle => left; omega
-      | install hpc hle => rw [hu']; exact hcov _ inv.upd
+      | install hpc hle => left; rw [hu', hie']; exact Nat.le_refl _
     · intro j c hj hge hpc
       rcases back j c hj with ⟨_, h2⟩ | ⟨_, h2⟩
       · subst h2
@@ -287,6 +287,127 @@ theorem covered_quiescent {s : Sys} (hq : Quiescent s) {n : Nat} (h : Covered s 
   · exact h
   · obtain ⟨r, hr⟩ := hq j c hj
     rcases hps with h | h <;> simp [hr] at h
+
+/-! ## all flags: `updating_epoch` is always covered
+
+With the store that follows the install (same write-locked step), every step that lowers the installed
+epoch or takes a caller out of the past-store set also writes `updating_epoch` — to the (new)
+installed epoch.  So `Covered s s.updating` needs no assumption on the flags. -/
+
+structure AllInv (announce : Bytes) (n0 : Nat) (s : Sys) : Prop where
+  len : n0 ≤ s.callers.length
+  old : ∀ (j : Nat) (c : Caller), s.callers[j]? = some c → j < n0 → ∃ r, c.pc = .done r
+  upd : Covered s s.updating
+  nmm : ∀ (j : Nat) (c : Caller), s.callers[j]? = some c → n0 ≤ j →
+    (c.pc = .done .notMyMeta ↔ hostsOk announce c.msg = false)
+
+theorem covered_le {s : Sys} {n m : Nat} (h : Covered s n) (hm : m ≤ n) : Covered s m := by
+  rcases h with h | ⟨j, c, hj, hps, hle⟩
+  · exact Or.inl (Nat.le_trans hm h)
+  · exact Or.inr ⟨j, c, hj, hps, Nat.le_trans hm hle⟩
+
+theorem allInv_step {announce : Bytes} {n0 : Nat} {s s' : Sys} {l : Label} (h : Step announce s l s')
+    (inv : AllInv announce n0 s) : AllInv announce n0 s' := by
+  rcases step_pool h with ⟨m, _, hu, hie, _, hlen, hp⟩ | ⟨i, ci, ci', u', ie', im', _, hci, hu', hie', him', ha, hlen, hp⟩
+  · have back : ∀ (j : Nat) (c : Caller), s'.callers[j]? = some c →
+        (j = s.callers.length ∧ c = spawnCaller announce m) ∨ (j ≠ s.callers.length ∧ s.callers[j]? = some c) := by
+      intro j c hj
+      rw [hp j] at hj
+      by_cases hjl : j = s.callers.length
+      · left; simp [hjl] at hj; exact ⟨hjl, hj.symm⟩
+      · right; simp [hjl] at hj; exact ⟨hjl, hj⟩
+    have keep : ∀ (j : Nat) (c : Caller), s.callers[j]? = some c → s'.callers[j]? = some c := by
+      intro j c hj
+      have hlt := getElem?_lt hj
+      rw [hp j]; simp [Nat.ne_of_lt hlt, hj]
+    have hl := inv.len
+    refine ⟨by omega, ?_, ?_, ?_⟩
+    · intro j c hj hlt
+      rcases back j c hj with ⟨h1, _⟩ | ⟨_, h2⟩
+      · omega
+      · exact inv.old j c h2 hlt
+    · rw [hu]
+      rcases inv.upd with h1 | ⟨j, c, hj, hps, hle⟩
+      · left; omega
+      · right; exact ⟨j, c, keep j c hj, hps, hle⟩
+    · intro j c hj hge
+      rcases back j c hj with ⟨_, h2⟩ | ⟨_, h2⟩
+      · subst h2
+        rcases spawnCaller_pc announce m with ⟨h3, h4⟩ | ⟨h3, h4⟩ <;> simp [h3, h4, spawnCaller_msg]
+      · exact inv.nmm j c h2 hge
+  · have hin0 : n0 ≤ i := by
+      rcases Nat.lt_or_ge i n0 with hlt | hge
+      · obtain ⟨r, hr⟩ := inv.old i ci hci hlt
+        exact absurd hr (ha.not_done r)
+      · exact hge
+    have self' : s'.callers[i]? = some ci' := by rw [hp i]; simp
+    have back : ∀ (j : Nat) (c : Caller), s'.callers[j]? = some c → (j = i ∧ c = ci') ∨ (j ≠ i ∧ s.callers[j]? = some c) := by
+      intro j c hj
+      rw [hp j] at hj
+      by_cases hji : j = i
+      · left; simp [hji] at hj; exact ⟨hji, hj.symm⟩
+      · right; simp [hji] at hj; exact ⟨hji, hj⟩
+    have keep : ∀ (j : Nat) (c : Caller), s.callers[j]? = some c → j ≠ i → s'.callers[j]? = some c := by
+      intro j c hj hji; rw [hp j]; simp [hji, hj]
+    have hmsg := ha.msg_eq
+    have hl := inv.len
+    refine ⟨by omega, ?_, ?_, ?_⟩
+    · intro j c hj hlt
+      rcases back j c hj with ⟨h1, _⟩ | ⟨_, h2⟩
+      · omega
+      · exact inv.old j c h2 hlt
+    · -- a witness other than the acting caller survives; the acting caller is a witness only past its store
+      have other : ∀ (hpc : ¬ pastStore ci), s'.updating = s.updating → s'.instEpoch = s.instEpoch →
+          Covered s' s'.updating := by
+        intro hpc h1 h2
+        rw [h1]
+        rcases inv.upd with h3 | ⟨j, c, hj, hps, hle⟩
+        · left; omega
+        · right
+          have hji : j ≠ i := by
+            intro hji; subst hji; rw [hci] at hj; cases hj; exact hpc hps
+          exact ⟨j, c, keep j c hj hji, hps, hle⟩
+      cases ha with
+      | loadRej hpc hf hle => exact other (by simp [pastStore, hpc]) hu' hie'
+      | loadPass hpc hle => exact other (by simp [pastStore, hpc]) hu' hie'
+      | store hpc => right; exact ⟨i, _, self', Or.inl rfl, by rw [hu']; exact Nat.le_refl _⟩
+      | read hpc =>
+        rw [hu']
+        rcases inv.upd with h3 | ⟨j, c, hj, hps, hle⟩
+        · left; omega
+        · right
+          by_cases hji : j = i
+          · subst hji; rw [hci] at hj; cases hj
+            exact ⟨j, _, self', Or.inr rfl, hle⟩
+          · exact ⟨j, c, keep j c hj hji, hps, hle⟩
+      | lockRej hpc hf hle => left; omega
+      | install hpc hle => left; rw [hu', hie']; exact Nat.le_refl _
+    · intro j c hj hge
+      rcases back j c hj with ⟨_, h2⟩ | ⟨_, h2⟩
+      · subst h2
+        have h3 := inv.nmm i ci hci hin0
+        have h4 : ci.pc ≠ .done .notMyMeta := ha.not_done _
+        rw [hmsg]
+        have h5 : ¬ hostsOk announce ci.msg = false := fun h => h4 (h3.mpr h)
+        constructor
+        · intro hpc
+          cases ha <;> simp at hpc
+        · intro h; exact absurd h h5
+      · exact inv.nmm j c h2 hge
+
+theorem allInv_start (announce : Bytes) (s0 : Sys) (hq : Quiescent s0) (hu : s0.updating ≤ s0.instEpoch) :
+    AllInv announce s0.callers.length s0 := by
+  refine ⟨Nat.le_refl _, ?_, Or.inl hu, ?_⟩
+  · intro j c hj _; exact hq j c hj
+  · intro j c hj hge; have := getElem?_lt hj; omega
+
+/-- the all-flags invariant holds throughout any execution from a healthy state -/
+theorem allInv_run {announce : Bytes} {s0 s : Sys} {ls : List Label} (hq : Quiescent s0)
+    (hu : s0.updating ≤ s0.instEpoch) (h : Run announce s0 ls s) :
+    AllInv announce s0.callers.length s := by
+  induction h with
+  | nil => exact allInv_start announce s0 hq hu
+  | snoc _ hs ih => exact allInv_step hs ih
 
 /-! ## `foldl max` -/
 
